@@ -5,6 +5,7 @@ P: FRAGMENT of UCMM.request: the acceptance assertion with its guard `self.route
    block inside the try whose handler leaves a non-zero enip.status (checked on the AST).
 B: textual route paths -> segments vs a reference parser; end-to-end accept/refuse x configurations.
 """
+from .util import distinct_keys
 import ast
 import json
 import random
@@ -309,7 +310,7 @@ def bounded(tier, seed):
     for b in bad[:5]:
         violations.append(b)
     distinct |= set(('pair', i) for i in range(30))
-    return dict(evaluations=ev, distinct_nontrivial=len(distinct),
+    return dict(evaluations=ev, distinct_nontrivial=len(distinct), distinct_keys=distinct_keys(distinct),
                 rule='route-path texts (p/l for ports {1,2,15,255} x numeric/IP links, chained 2..3 hops, JSON lists of dicts and of p/l strings) vs a reference '
                      'parser; every (personality in none/simple/3 configured paths) x (request route path absent / equal / differing in port, link, link kind, length) '
                      'through the real logix.process with a Write Tag: accepted => applied, refused => non-zero status and the tag untouched; distinct = distinct texts / pairs',
